@@ -29,7 +29,16 @@ class HarnessError(Exception):
     pass
 
 
+def _dump_on_usr1():
+    try:
+        import faulthandler, signal
+        faulthandler.register(signal.SIGUSR1, all_threads=True, chain=False)
+    except Exception:
+        pass
+
+
 def _job(modname, task, root, cut_depth, deadline_s):
+    _dump_on_usr1()
     H = importlib.import_module(modname)
     acc = Acc()
     t0 = time.time()
@@ -63,6 +72,13 @@ def run_parallel(modname, tasks, nproc, log=print):
                 name, acc, roots = f.result()
                 total.merge(acc)
                 per_task.setdefault(name, Acc()).merge(acc)
+                if total.get('#candidates') >= 48:
+                    # the check fails anyway: do not start further sub-jobs, drop the ones not started yet
+                    for p_ in list(pending):
+                        if p_.cancel():
+                            pending.discard(p_)
+                    total.inc('jobs_dropped_after_candidates', len(roots))
+                    continue
                 for r in roots:
                     t = tmap[name]
                     pending.add(ex.submit(_job, modname, t, r, None, t.get('deadline')))
@@ -116,6 +132,7 @@ def main(modname):
     ap.add_argument('--procs', type=int, default=int(os.environ.get('VERIF_PROCS', '16')))
     ap.add_argument('--only', default=None, help='substring filter on task names (debugging)')
     args = ap.parse_args()
+    _dump_on_usr1()
     H = importlib.import_module(modname)
     pid = H.PID
     seed = int(os.environ.get('VERIF_SEED', '0') or 0)
